@@ -740,6 +740,44 @@ func checkRouting(c *Ctx) {
 			}
 		}
 	}
+	{
+		// a relay sends reports up through the connection it has now: every WriteReport* call of the relay
+		// takes its writer from RemoteSuperior.writer at the time of the call (the field Reborn replaces
+		// after a reconnect), never from a copy kept elsewhere — a copy made at construction keeps pointing
+		// at the dead connection, tasks arrive over the new one and every report is lost
+		key := "relay:reports-through-the-current-writer"
+		n := 0
+		var bad []string
+		for fn := range c.AllFuncs {
+			if pkgOf(fn) != pkgFractal {
+				continue
+			}
+			fn := fn
+			allInstrs(fn, func(in ssa.Instruction) {
+				cl, ok := in.(*ssa.Call)
+				if !ok || !cl.Call.IsInvoke() || !strings.HasPrefix(cl.Call.Method.Name(), "WriteReport") {
+					return
+				}
+				if !strings.HasSuffix(cl.Call.Value.Type().String(), "ReportWriter") {
+					return
+				}
+				n++
+				t, f, _, isF := fieldOfValue(cl.Call.Value)
+				if !isF || f != "writer" || !strings.HasSuffix(t, "RemoteSuperior") {
+					bad = append(bad, fmt.Sprintf("%s at %s", fn.Name(), c.Pos(cl.Pos())))
+				}
+			})
+		}
+		sort.Strings(bad)
+		switch {
+		case n == 0:
+			c.Bad(rule, key, "", "reason=anchor-missing: WriteReport* calls on a ReportWriter in the fractal package")
+		case len(bad) > 0:
+			c.Bad(rule, key, "", "a report is written through a ReportWriter that is not read from RemoteSuperior.writer at the time of the call ("+strings.Join(bad, "; ")+"): after a reconnect installs a new writer, reports still go to the dead connection")
+		default:
+			c.OK(rule, key, "", fmt.Sprintf("%d WriteReport* calls, each on rs.writer read at call time", n))
+		}
+	}
 	if f := c.MustFn(rule, "fractal", "(*LocalSuperior).onTypeMsg"); f != nil {
 		key := "onTypeMsg:collector-id-and-message-preserved"
 		ok := false
